@@ -254,8 +254,35 @@ def rand_param_text(rng, keys):
     return body + end
 
 
+def rand_case(rng, k):
+    return rng.choice([k, k, k.lower(), k.capitalize(), k.swapcase(), "".join(rng.choice([ch.lower(), ch.upper()]) for ch in k)])
+
+
+def rand_clean_text(rng, ssc):
+    """well-formed text with nothing that needs escaping: only the letter case of the keys (markers included) varies"""
+    val = lambda: rng.choice(["a", "b c", "12", "0.000=120.000", "x y z", "", "Easy"])
+    parts = []
+    if ssc:
+        parts.append("#%s:0.83;\n" % rand_case(rng, "VERSION"))
+    for k in rng.sample(SSC_KEYS if ssc else SM_KEYS, rng.randrange(1, 5)):
+        parts.append("#%s:%s;\n" % (rand_case(rng, k), val()))
+    for _ in range(rng.choice([0, 1, 1, 2, 3])):
+        if ssc:
+            parts.append("#%s:;\n" % rand_case(rng, "NOTEDATA"))
+            for k in rng.sample(CHART_KEYS[:6], rng.randrange(0, 4)):
+                parts.append("#%s:%s;\n" % (rand_case(rng, k), val()))
+            parts.append("#%s:\n0000\n0000\n;\n" % rand_case(rng, rng.choice(["NOTES", "NOTES", "NOTES2"])))
+            if rng.random() < 0.2:
+                parts.append("#%s:%s;\n" % (rand_case(rng, "CREDIT"), val()))
+        else:
+            parts.append("#%s:dance-single:%s:Easy:%d:0,0:\n0000\n0000\n;\n" % (rand_case(rng, "NOTES"), val(), rng.randrange(1, 20)))
+    return "".join(parts)
+
+
 def rand_msd_text(rng, ssc=None):
     ssc = rng.random() < 0.5 if ssc is None else ssc
+    if rng.random() < 0.2:
+        return rand_clean_text(rng, ssc)
     keys = (SSC_KEYS + ["NOTEDATA", "NOTES", "NOTES2"] + CHART_KEYS[:6]) if ssc else (SM_KEYS + ["NOTES", "NOTES"])
     parts = []
     if rng.random() < 0.15:
